@@ -9,8 +9,7 @@ void harness(void)
 {
     xv_ghost_havoc();
     xv_td_havoc();
-    xv_g_ptr = nondet_cptr(); xv_g_ptr2 = nondet_cptr();
-    struct xcm_dns_query *q; bool owner;
+    struct xcm_dns_query *q = nondet_bool() ? xv_q_any() : NULL; bool owner = nondet_bool();
     unsigned cb0 = xv_ar.cb_n;
     xcm_dns_query_destroy(q, owner);
     if (q == NULL) XV_CANARY("NULL");
